@@ -135,7 +135,7 @@ impl ChaCha {
     fn inc_block_ct<M: Machine>(&mut self, m: M) {
         let mut pos = self.pos64(m);
         let d0: M::u32x4 = m.unpack(self.d);
-        pos += 1;
+        pos = pos.wrapping_add(1);
         let d1 = d0.insert((pos >> 32) as u32, 1).insert(pos as u32, 0);
         self.d = d1.into();
     }
